@@ -22,6 +22,8 @@ ASSUMPTIONS = [
     "relative tolerance 1e-9 on masses (Quantity arithmetic through Da / [m_e] factors)",
 ]
 NT_FLOOR = 0.3
+# coverage-guided complement (sv/fuzz.py): strategy -> number of cases
+FUZZ = {"thorough": {"formula": 30000}}
 
 from scinumtools.materials.periodic_table import PT_DATA  # the published isotope table is the specification
 
